@@ -8,7 +8,7 @@ from canopen.pdo.base import PdoBase, PdoMap
 from props import c04
 
 ID = "C05"
-PROOF_MODULES = ["CanopenProofs.C05"]
+PROOF_MODULES = ["CanopenProofs.C05", "CanopenProofs.C05Lookup"]
 GENERATED = ["Datatypes"]
 THEOREMS = [
     "Canopen.C05.offsets_disjoint",
@@ -19,6 +19,15 @@ THEOREMS = [
     "Canopen.C05.write_sets_low_bits",
     "Canopen.C05.get_set",
     "Canopen.C05.neighbour_unchanged",
+    # the way a variable is addressed (CanopenProofs/C05Lookup.lean)
+    "Canopen.C05.by_name_reaches_named_field",
+    "Canopen.C05.by_name_refused_iff",
+    "Canopen.C05.by_index_reaches_indexed_field",
+    "Canopen.C05.access_path_independent",
+    "Canopen.C05.coll_reaches_first_map_with_it",
+    "Canopen.C05.coll_name_reaches_named_field",
+    "Canopen.C05.read_by_key_is_its_field",
+    "Canopen.C05.write_by_key_changes_only_its_field",
 ]
 FINGERPRINT = [
     "canopen.pdo.base:PdoVariable.get_data",
@@ -30,15 +39,29 @@ FINGERPRINT = [
     "canopen.pdo.base:PdoMap._update_data_size",
     "canopen.variable:Variable.raw",
     "canopen.variable:Variable.data",
+    "canopen.variable:Variable.__init__",
+    "canopen.pdo.base:PdoMap.__getitem__",
+    "canopen.pdo.base:PdoMap._PdoMap__getitem_by_index",
+    "canopen.pdo.base:PdoMap._PdoMap__getitem_by_name",
+    "canopen.pdo.base:PdoBase.__getitem__",
+    "canopen.pdo:PDO.__init__",
 ]
 TRUSTED = c04.TRUSTED + [
     "Python int.from_bytes / int.to_bytes / bytearray slice assignment modelled as leVal / leBytes / "
     "take-drop (CanopenModel/Pdo/Bits.lean)"]
 ASSUMPTIONS = ["layouts as in the property: objects mapped with their own bit length, BOOLEAN and the "
-               "8-bit types also with a sub-byte length; total at most 64 bits"]
+               "8-bit types also with a sub-byte length; total at most 64 bits",
+               "keys: ints, and strs made of letters, digits and dots (what int(key, 16) accepts among these is "
+               "modelled: optional 0x/0X and hex digits); a str key that int(key, 16) accepts is an object index by "
+               "the API, whatever variables are named"]
 RULE = ("ops lay/get/set: every layout of 1..2 objects over all types and sub-byte lengths (quick), "
         "seeded layouts of 3..8 objects; all 2^len values for fields up to 12 bits, boundary values "
-        "above; frames 00.., ff.., alternating, seeded; non-trivial = implementation returned a value")
+        "above; frames 00.., ff.., alternating, seeded; non-trivial = implementation returned a value; "
+        "ops kget/kset: the variable is addressed through a key - position, index (int, hex str), full name - on "
+        "one map or through node.rpdo/node.tpdo/node.pdo, over seeded dictionaries of plain variables, records and "
+        "arrays whose names collide (member short name = another variable's full name, prefixes, case, dots, hex "
+        "literals), duplicate mappings, entries without bits, 1..3 maps; every object by full name, own name, "
+        "index, near-miss names, every position, map numbers; non-trivial = a variable was reached or the key refused")
 
 INT = c04.SPEC          # type -> (width, signed)
 REALS = {0x08: 32, 0x11: 64}
@@ -128,8 +151,148 @@ def parse_before(s):
     return parse_layout(s.split("|")[0]) if "|" in s else None
 
 
+# ------------------------------------------------------------------- access through a key
+# `kget how key maps frames` / `kset how key maps frames kind value`
+#   maps    map/map/...; a map is `-` (no entries) or entry,entry,...; an entry is
+#           `type:len:index:sub:parent:name` (decimal numbers; parent `-` = plain variable, `r<name>` /
+#           `a<name>` = member of the record / array <name>); the object dictionary holds exactly the
+#           objects the entries name
+#   frames  one frame per map, `/`-separated
+#   how     `m<j>` = `node.tpdo[j + 1][key]`, `t` = `node.tpdo[key]`, `r` = `node.rpdo[key]`,
+#           `p<k>` = `node.pdo[key]` with the first k maps being receive maps, the others transmit maps
+#   key     `n<decimal>` an int, `s<chars>` a str (names: letters, digits, dots)
+# output: `ok <map> <position> <value>` / `ok <map> <position> <frame>/<frame>...` (all frames afterwards),
+#         `ok <map> <position> err` (variable found, access raised), `ok map <j>` (the key selected a map),
+#         `err` (lookup raised)
+def parse_maps(s):
+    maps = []
+    for m in s.split("/"):
+        ents = []
+        if m != "-":
+            for e in m.split(","):
+                t, ln, ix, sb, par, nm = e.split(":")
+                ents.append((int(t), int(ln), int(ix), int(sb), None if par == "-" else par, nm))
+        maps.append(ents)
+    return maps
+
+
+def show_maps(maps):
+    return "/".join(",".join(f"{t}:{ln}:{ix}:{sb}:{par or '-'}:{nm}" for t, ln, ix, sb, par, nm in m) or "-"
+                    for m in maps)
+
+
+def parse_key(k):
+    return int(k[1:]) if k[0] == "n" else k[1:]
+
+
+def full_name(ent):
+    """the name the property speaks of: `Parent.Member` for a member of a record or an array"""
+    return ent[5] if ent[4] is None else ent[4][1:] + "." + ent[5]
+
+
+def build_named(maps, how):
+    """a node whose dictionary holds the objects the entries name and whose PDO maps hold the entries"""
+    d = od.ObjectDictionary()
+    for ents in maps:
+        for t, ln, ix, sb, par, nm in ents:
+            if par is None:
+                if ix in d.indices:
+                    o = d[ix]
+                    if not isinstance(o, od.ODVariable) or (o.name, o.subindex, o.data_type) != (nm, sb, t):
+                        raise ValueError("inconsistent entries")
+                    continue
+                v = od.ODVariable(nm, ix, sb)
+                v.data_type = t
+                d.add_object(v)
+            else:
+                cls = od.ODRecord if par[0] == "r" else od.ODArray
+                if ix not in d.indices:
+                    d.add_object(cls(par[1:], ix))
+                o = d[ix]
+                if type(o) is not cls or o.name != par[1:]:
+                    raise ValueError("inconsistent entries")
+                if sb in o.subindices:
+                    if (o.subindices[sb].name, o.subindices[sb].data_type) != (nm, t):
+                        raise ValueError("inconsistent entries")
+                    continue
+                v = od.ODVariable(nm, ix, sb)
+                v.data_type = t
+                o.add_member(v)
+    nrx = len(maps) if how == "r" else int(how[1:]) if how[0] == "p" else 0
+    where = []
+    for j in range(len(maps)):
+        rx = j < nrx
+        n = j if rx else j - nrx
+        com, mp = (0x1400, 0x1600) if rx else (0x1800, 0x1A00)
+        rec = od.ODRecord(f"com{j}", com + n)
+        for sub, t in ((0, 0x05), (1, 0x07), (2, 0x05)):
+            v = od.ODVariable(f"c{sub}", com + n, sub)
+            v.data_type = t
+            rec.add_member(v)
+        d.add_object(rec)
+        arr = od.ODArray(f"mapping{j}", mp + n)
+        for sub in range(0, 2):
+            v = od.ODVariable(f"e{sub}", mp + n, sub)
+            v.data_type = 0x05 if sub == 0 else 0x07
+            arr.add_member(v)
+        d.add_object(arr)
+        where.append((rx, n + 1))
+    node = canopen.RemoteNode(1, d)
+    pdomaps = [(node.rpdo if rx else node.tpdo)[n] for rx, n in where]
+    for m, ents in zip(pdomaps, maps):
+        for t, ln, ix, sb, par, nm in ents:
+            if m.add_variable(ix, sb, None if ln == width(t) else ln) is None:
+                raise ValueError("entry not mapped")
+    return node, pdomaps
+
+
+def run_keyed(a):
+    how, key, maps, frames = a[1], parse_key(a[2]), parse_maps(a[3]), [c04.unhx(f) for f in a[4].split("/")]
+    if len(frames) != len(maps):
+        return "bad-op"
+    if (how[0] == "m" and int(how[1:]) >= len(maps)) or (how[0] == "p" and int(how[1:]) > len(maps)):
+        return "bad-op"
+    try:
+        node, pdomaps = build_named(maps, how)
+    except ValueError:
+        return "bad-op"
+    for m, fr in zip(pdomaps, frames):
+        m.data = bytearray(fr)
+    try:
+        if how[0] == "m":
+            var = pdomaps[int(how[1:])][key]
+        else:
+            var = {"t": node.tpdo, "r": node.rpdo, "p": node.pdo}[how[0]][key]
+    except Exception:
+        return "err"
+    for j, m in enumerate(pdomaps):
+        if var is m:
+            return f"ok map {j}"
+    # which mapped variable is it (identity, not name)
+    at = [(j, i) for j, m in enumerate(pdomaps) for i, v in enumerate(m.map) if v is var]
+    if len(at) != 1:
+        return f"ok ? ? {type(var).__name__}"
+    j, i = at[0]
+    t = maps[j][i][0]
+    try:
+        if a[0] == "kget":
+            return f"ok {j} {i} " + c04.show_val(var.raw, str(t))
+        if a[5] == "int":
+            var.raw = int(a[6])
+        elif a[5] == "bool":
+            var.raw = a[6] == "1"
+        else:
+            eb, mb = (8, 23) if t == 0x08 else (11, 52)
+            var.raw = c04.bits_to_float(int(a[6]), eb, mb)
+        return f"ok {j} {i} " + "/".join(c04.hx(bytes(m.data)) for m in pdomaps)
+    except Exception:
+        return f"ok {j} {i} err"
+
+
 def run_impl(op):
     a = op.split(" ")
+    if a[0] in ("kget", "kset"):
+        return run_keyed(a)
     layout = parse_layout(a[1])
     try:
         m, vs = build(layout, parse_before(a[1]), via_read=a[1].startswith("rd~"))
@@ -159,6 +322,13 @@ def run_impl(op):
 
 def canon_model(op, out):
     a = op.split(" ")
+    if a[0] == "kget":
+        f = out.split(" ")
+        if len(f) == 5 and f[3] == "real":
+            t = parse_maps(a[3])[int(f[1])][int(f[2])][0]
+            if c04.is_nan_pattern(t, int(f[4])):
+                return " ".join(f[:4] + ["nan"])
+        return out
     if a[0] == "get" and out.startswith("ok real "):
         t = parse_layout(a[1])[int(a[3])][0]
         if c04.is_nan_pattern(t, int(out[8:])):
@@ -174,8 +344,127 @@ def offsets(layout):
     return o, acc
 
 
+def judge_get(layout, frame, i, out):
+    """`out` (`ok <value>` / `err`) against the value of exactly the bit field of entry i"""
+    offs, total = offsets(layout)
+    if len(frame) != (total + 7) // 8 or layout[i][1] == 0:
+        return None
+    t, ln = layout[i]
+    off = offs[i]
+    f = (int.from_bytes(frame, "little") >> off) & ((1 << ln) - 1)
+    if t in INT:
+        v = f - (1 << ln) if INT[t][1] and f >> (ln - 1) else f
+        exp = f"ok int {v}"
+    elif t == BOOL:
+        exp = f"ok bool {int(f != 0)}"
+    else:
+        exp = "ok real nan" if c04.is_nan_pattern(t, f) else f"ok real {f}"
+    return None if out == exp else f"read of bits [{off},{off + ln}) gave {out}, field holds {exp}"
+
+
+def judge_set(layout, frame, i, kind, v, out):
+    """`out` (`ok <frame>` / `err`) against the update of exactly the bit field of entry i"""
+    offs, total = offsets(layout)
+    size = (total + 7) // 8
+    if len(frame) != size or layout[i][1] == 0:
+        return None
+    t, ln = layout[i]
+    off = offs[i]
+    x = int.from_bytes(frame, "little")
+    mask = (1 << ln) - 1
+    if kind == "int":
+        if t in INT:
+            w, s = INT[t]
+            lo, hi = (-(1 << (w - 1)), (1 << (w - 1)) - 1) if s else (0, (1 << w) - 1)
+            if not lo <= v <= hi:
+                return None if out == "err" else f"out-of-range write accepted: {out}"
+        elif t == BOOL:
+            v = 1 if v else 0
+        else:
+            return None
+    nx = (x & ~(mask << off)) | ((v & mask) << off)
+    exp = "ok " + c04.hx(nx.to_bytes(size, "little"))
+    return None if out == exp else (f"write of {v} into bits [{off},{off + ln}) gave {out}, "
+                                    f"exactly-the-field update is {exp}")
+
+
+def is_hex_literal(s):
+    """a str key that the API takes for an object index (`pdo['0x2000']`)"""
+    try:
+        int(s, 16)
+        return True
+    except ValueError:
+        return False
+
+
+def must_reach(how, key, maps):
+    """Reference for the addressing part of the property: which mapped variables (map, position) an access
+    with this key may reach.  Returns (kind, candidates) - an empty candidate set means the access has to be
+    refused - or None when the statement does not say (map numbers, positions through a collection)."""
+    scope = [int(how[1:])] if how[0] == "m" else list(range(len(maps)))
+    real = [(j, i, e) for j in scope for i, e in enumerate(maps[j]) if e[1] > 0]     # variables that own bits
+    if isinstance(key, int):
+        if how[0] == "m" and 0 <= key < 8:
+            return "position", ([(how_j, key) for how_j in scope] if key < len(maps[scope[0]]) else [])
+        if how[0] != "m" and (0 <= key < 8 or 0 < key <= 512 or 0x1600 <= key <= 0x17FF or 0x1A00 <= key <= 0x1BFF):
+            return None
+        return "index", [(j, i) for j, i, e in real if e[2] == key]
+    if is_hex_literal(key):
+        k = int(key, 16)
+        return "hex", [(j, i) for j, i, e in real if e[2] == k]
+    return "name", [(j, i) for j, i, e in real if full_name(e) == key]
+
+
+def oracle_keyed(a, out):
+    how, key, maps = a[1], parse_key(a[2]), parse_maps(a[3])
+    frames = [c04.unhx(f) for f in a[4].split("/")]
+    if out == "bad-op":
+        return None
+    ref = must_reach(how, key, maps)
+    if ref is None:
+        return None
+    kind, cands = ref
+    shown = f"{'int' if isinstance(key, int) else 'str'} key {key!r} ({kind})"
+    f = out.split(" ")
+    if f[0] == "err":
+        if cands:
+            j, i = cands[0]
+            return (f"{shown} was refused although the mapped variable {full_name(maps[j][i])!r} "
+                    f"(0x{maps[j][i][2]:04X}, map {j} position {i}) is addressed by it")
+        return None
+    if f[0] != "ok" or len(f) < 3 or f[1] == "map":
+        return f"{shown} gave {out}, not a mapped variable"
+    if f[1] == "?":
+        return f"{shown} returned an object that is not one of the mapped variables"
+    j, i = int(f[1]), int(f[2])
+    if (j, i) not in cands:
+        e = maps[j][i]
+        want = ("no mapped variable is addressed by it, the access has to be refused" if not cands else
+                "it addresses " + ", ".join(f"{full_name(maps[x][y])!r} (0x{maps[x][y][2]:04X}) at map {x} position {y}"
+                                            for x, y in cands[:3]))
+        return (f"{shown} reached {full_name(e)!r} (0x{e[2]:04X}, map {j} position {i}, {e[1]} bits): {want}")
+    layout = [(e[0], e[1]) for e in maps[j]]
+    rest = " ".join(f[3:])
+    if a[0] == "kget":
+        w = judge_get(layout, frames[j], i, "err" if rest == "err" else "ok " + rest)
+        return None if w is None else f"{shown}, variable {full_name(maps[j][i])!r}: {w}"
+    if rest == "err":
+        w = judge_set(layout, frames[j], i, a[5], int(a[6]), "err")
+        return None if w is None else f"{shown}, variable {full_name(maps[j][i])!r}: {w}"
+    after = rest.split("/")
+    if len(after) != len(frames):
+        return f"{shown}: {len(after)} frames after the write, {len(frames)} before"
+    for x, (b, c) in enumerate(zip(frames, after)):
+        if x != j and c04.hx(b) != c:
+            return f"{shown}: the write into map {j} changed the frame of map {x} from {c04.hx(b)} to {c}"
+    w = judge_set(layout, frames[j], i, a[5], int(a[6]), "ok " + after[j])
+    return None if w is None else f"{shown}, variable {full_name(maps[j][i])!r}: {w}"
+
+
 def oracle(op, out):
     a = op.split(" ")
+    if a[0] in ("kget", "kset"):
+        return oracle_keyed(a, out)
     layout = parse_layout(a[1])
     offs, total = offsets(layout)
     size = (total + 7) // 8
@@ -184,47 +473,24 @@ def oracle(op, out):
         return None if out == exp else f"layout gave {out}, expected {exp}"
     frame = c04.unhx(a[2])
     i = int(a[3])
-    t, ln = layout[i]
-    off = offs[i]
-    x = int.from_bytes(frame, "little")
-    mask = (1 << ln) - 1
-    f = (x >> off) & mask
-    if len(frame) != size:
-        return None
     if a[0] == "get":
-        if t in INT:
-            v = f - (1 << ln) if INT[t][1] and f >> (ln - 1) else f
-            exp = f"ok int {v}"
-        elif t == BOOL:
-            exp = f"ok bool {int(f != 0)}"
-        else:
-            exp = "ok real nan" if c04.is_nan_pattern(t, f) else f"ok real {f}"
-        return None if out == exp else f"read of bits [{off},{off + ln}) gave {out}, field holds {exp}"
+        return judge_get(layout, frame, i, out)
     if a[0] == "set":
-        if a[4] == "int":
-            v = int(a[5])
-            if t in INT:
-                w, s = INT[t]
-                lo, hi = (-(1 << (w - 1)), (1 << (w - 1)) - 1) if s else (0, (1 << w) - 1)
-                if not lo <= v <= hi:
-                    return None if out == "err" else f"out-of-range write accepted: {out}"
-            elif t == BOOL:
-                v = 1 if v else 0
-            else:
-                return None
-        elif a[4] == "bool":
-            v = int(a[5])
-        else:
-            v = int(a[5])
-        nx = (x & ~(mask << off)) | ((v & mask) << off)
-        exp = "ok " + c04.hx(nx.to_bytes(size, "little"))
-        return None if out == exp else (f"write of {v} into bits [{off},{off + ln}) gave {out}, "
-                                        f"exactly-the-field update is {exp}")
+        return judge_set(layout, frame, i, a[4], int(a[5]), out)
     return None
+
+
+def key_kind(a):
+    ref = must_reach(a[1], parse_key(a[2]), parse_maps(a[3]))
+    return "other" if ref is None else ref[0]
 
 
 def signature(op, what):
     a = op.split(" ")
+    if a[0] in ("kget", "kset"):
+        addressing = any(w in what for w in (" reached ", " was refused ", "not a mapped variable",
+                                             "not one of the mapped variables"))
+        return f"{a[0]}:{key_kind(a)}:{'addressing' if addressing else 'field'}"
     layout = parse_layout(a[1])
     offs, _ = offsets(layout)
     if a[0] == "lay":
@@ -236,11 +502,16 @@ def signature(op, what):
 
 
 def nontrivial(op, out):
-    return out.startswith("ok")
+    # a refused key is a meaningful outcome of an access through a key
+    return out.startswith("ok") or (op.startswith("k") and out == "err")
 
 
 def classify(op, out):
     a = op.split(" ")
+    if a[0] in ("kget", "kset"):
+        f = out.split(" ")
+        res = "refused" if f[0] == "err" else "map" if f[1:2] == ["map"] else "raised" if f[-1] == "err" else "ok"
+        return f"{a[0]}:{'map' if a[1][0] == 'm' else 'coll'}:{key_kind(a)}:{res}"
     if a[0] == "lay":
         return "lay"
     layout = parse_layout(a[1])
@@ -250,8 +521,47 @@ def classify(op, out):
     return f"{a[0]}:{'aligned' if aligned else 'bits'}:{'ok' if out.startswith('ok') else 'err'}"
 
 
+def shrink_keyed(a):
+    maps = parse_maps(a[3])
+    frames = [c04.unhx(f) for f in a[4].split("/")]
+
+    def fit(m, fr):
+        size = (sum(e[1] for e in m) + 7) // 8
+        return (fr + bytes(size))[:size]
+
+    def emit(how, ms, frs):
+        return " ".join([a[0], how, a[2], show_maps(ms), "/".join(c04.hx(f) for f in frs)] + a[5:])
+
+    how = a[1]
+    # drop a whole map (keeping the one a direct access names and the receive/transmit split valid)
+    for j in range(len(maps)):
+        if len(maps) == 1:
+            break
+        h = how
+        if how[0] == "m":
+            k = int(how[1:])
+            if k == j:
+                continue
+            h = f"m{k - 1 if k > j else k}"
+        elif how[0] == "p":
+            k = int(how[1:])
+            h = f"p{k - 1 if j < k else k}"
+        yield emit(h, maps[:j] + maps[j + 1:], frames[:j] + frames[j + 1:])
+    # drop one entry
+    for j, m in enumerate(maps):
+        for i in range(len(m)):
+            m2 = m[:i] + m[i + 1:]
+            yield emit(how, maps[:j] + [m2] + maps[j + 1:], frames[:j] + [fit(m2, frames[j])] + frames[j + 1:])
+    # zero the frames
+    if any(any(f) for f in frames):
+        yield emit(how, maps, [bytes(len(f)) for f in frames])
+
+
 def shrink_candidates(op):
     a = op.split(" ")
+    if a[0] in ("kget", "kset"):
+        yield from shrink_keyed(a)
+        return
     if a[0] in ("get", "set"):
         layout = parse_layout(a[1])
         i = int(a[3])
@@ -301,7 +611,107 @@ def values_for(t, ln, rng, tier):
                                   (1 << (w - 1)), rng.getrandbits(w - 2))]
 
 
+# names chosen so that they collide: short names of members equal to full names of other variables, names that
+# are prefixes of each other, that differ in case only, that contain the separator, that int(.., 16) accepts
+OWN_NAMES = ["Speed", "Torque", "Spee", "Speed1", "S", "Axis", "Limit", "speed", "ADC", "Feed", "2001", "0x2002",
+             "Axis.Speed", "Speed.S", "A.S", "x1"]
+PARENT_NAMES = ["Axis", "Axis1", "Speed", "A", "Axis.Speed", "ADC", "S", "A.S"]
+OBJ_INDICES = [0x2000, 0x2001, 0x2002, 0x2003, 0x2004, 0x0ADC, 0xFEED]
+KEYED_TYPES = [0x02, 0x03, 0x04, 0x05, 0x06, 0x07, 0x10, 0x16, BOOL]
+
+
+def gen_scenario(rng):
+    """a dictionary of 2..5 objects (plain variables, records, arrays) drawn from few names, and 1..3 maps over it"""
+    own = rng.sample(OWN_NAMES, rng.randint(2, 4))
+    parents = rng.sample(PARENT_NAMES, 2)
+    objs = []
+    for ix in rng.sample(OBJ_INDICES, rng.randint(2, 4)):
+        if rng.random() < 0.45:
+            objs.append((rng.choice(KEYED_TYPES), ix, 0, None, rng.choice(own)))
+        else:
+            par = rng.choice("ra") + rng.choice(parents)
+            for sb in sorted(rng.sample(range(0, 4), rng.randint(1, 3))):
+                objs.append((rng.choice(KEYED_TYPES), ix, sb, par, rng.choice(own)))
+    maps = []
+    for _ in range(rng.choice([1, 1, 2, 2, 3])):
+        m, total = [], 0
+        for _ in range(rng.choice([0, 2, 3, 3, 4, 4, 5, 6])):
+            t, ix, sb, par, nm = rng.choice(objs)
+            ln = rng.choice(lens_for(t))
+            if rng.random() < 0.06:
+                ln = 0                      # an entry without bits: the lookups pass over it
+            if total + ln > 64:
+                continue
+            m.append((t, ln, ix, sb, par, nm))
+            total += ln
+        maps.append(m)
+    return objs, maps
+
+
+def scenario_keys(objs, maps, rng):
+    keys = []
+    mapped = {(e[2], e[3]) for m in maps for e in m}
+    for t, ix, sb, par, nm in objs:
+        full = nm if par is None else par[1:] + "." + nm
+        # every object by its full name, by its own name, by index (int, hex str, 0x str)
+        keys += ["s" + full, "s" + nm, f"n{ix}", rng.choice([f"s{ix:x}", f"s0x{ix:04X}", f"s{ix:04X}", f"s0X{ix:x}"])]
+        if (ix, sb) in mapped:
+            # near misses of a mapped name: a prefix, an extension, the parent alone
+            keys += rng.sample(["s" + full[:-1], "s" + full + "1", "s" + full.lower(), "s." + nm, "s" + full + "."], 2)
+            if par is not None:
+                keys += [rng.choice(["s" + par[1:], "s" + par[1:] + "."])]
+    keys += [f"n{k}" for k in range(0, max(len(m) for m in maps) + 1)] + ["n7", "n8"]
+    keys += rng.sample(["n512", "n513", "n5632", "n5633", "n6656", "n6657", "n1", "n2", "n3", "n4"], 3)
+    keys += ["n8200", "s2009", "s" + rng.choice(OWN_NAMES), "s" + rng.choice(PARENT_NAMES) + "." + rng.choice(OWN_NAMES)]
+    out = []
+    for k in keys:
+        if k not in out and len(k) > 1:
+            out.append(k)
+    return out
+
+
+def keyed_value(how, key, maps, rng):
+    """a value for the variable the key addresses (by the reference), in range most of the time"""
+    ref = must_reach(how, parse_key(key), maps)
+    t, ln = 0x05, 8
+    if ref and ref[1]:
+        j, i = ref[1][0]
+        if i < len(maps[j]):
+            t, ln = maps[j][i][0], maps[j][i][1]
+    if t == BOOL:
+        return "bool", rng.randint(0, 1)
+    w, sg = INT[t]
+    lo, hi = (-(1 << (w - 1)), (1 << (w - 1)) - 1) if sg else (0, (1 << w) - 1)
+    return "int", rng.choice([lo, hi, 0, 1, -1 if sg else hi - 1, (1 << max(ln, 1)) - 1 if (1 << max(ln, 1)) - 1 <= hi else hi,
+                              rng.randint(lo, hi), rng.randint(lo, hi), hi + 1])
+
+
+def gen_keyed(tier, rng):
+    for _ in range(60 if tier == "quick" else 700):
+        objs, maps = gen_scenario(rng)
+        ms = show_maps(maps)
+        sizes = [(sum(e[1] for e in m) + 7) // 8 for m in maps]
+        hows = [f"m{j}" for j in range(len(maps))] + ["t", "r"] + [f"p{k}" for k in range(len(maps) + 1)]
+        for key in scenario_keys(objs, maps, rng):
+            if tier == "quick":
+                use = [rng.choice(hows[:len(maps)]), rng.choice(hows[len(maps):])]
+            else:
+                use = hows[:len(maps)] + rng.sample(hows[len(maps):], 2)
+            for how in use:
+                frs = "/".join(c04.hx(rng.choice(frames_for(n, rng, 1))) for n in sizes)
+                yield f"kget {how} {key} {ms} {frs}"
+                ref = must_reach(how, parse_key(key), maps)
+                if ref is not None and not ref[1] and rng.random() < 0.8:
+                    continue                # a key that has to be refused: the read says it all, most of the time
+                frs = "/".join(c04.hx(rng.choice(frames_for(n, rng, 1))) for n in sizes)
+                kind, v = keyed_value(how, key, maps, rng)
+                yield f"kset {how} {key} {ms} {frs} {kind} {v}"
+
+
 def gen_ops(tier, rng):
+    # the accesses through a key come first (a failing-input search reaches them at once); own generator state
+    import random as _random
+    yield from gen_keyed(tier, _random.Random(rng.getrandbits(64)))
     singles = [(t, ln) for t in ALL_TYPES for ln in lens_for(t)]
     layouts = [[e] for e in singles]
     # every pair: the second object lands at every offset the first produces
@@ -347,6 +757,7 @@ def gen_ops(tier, rng):
                 yield f"set {ls} {c04.hx(fr)} {i} {k} {v}"
 
 
+_DEMO = "3:16:8192:1:rAxis:Speed,3:16:8192:2:rAxis:Torque,5:8:8208:0:-:Speed,5:8:8209:0:-:Limit"
 CORPUS = [
     "lay rd~27:64",                     # a 64-bit object mapped with its full length, map read from 0x1600
     "get rd~5:8,2:4,2:4 00f0 2",
@@ -357,13 +768,38 @@ CORPUS = [
     "set 2:4,2:4 50 0 int -1",          # F2: negative write clobbered the neighbour
     "set 5:4,5:4 00 1 int 31",
     "get 1:1,8:32 0000000001 1",        # REAL32 at a bit offset
+    # access through a key: `Axis.Speed`, `Axis.Torque`, a plain `Speed` and `Limit` in one map
+    f"kget m0 sSpeed {_DEMO} 341278569abc",             # the plain variable (position 2), not the member Axis.Speed
+    f"kget m0 sAxis.Speed {_DEMO} 341278569abc",
+    f"kget m0 sTorque {_DEMO} 341278569abc",            # a member's short name is nobody's full name: refused
+    f"kget m0 sAxis {_DEMO} 341278569abc",
+    f"kset m0 sSpeed {_DEMO} 341278569abc int 17",
+    f"kget t sSpeed -/{_DEMO} -/341278569abc",          # node.tpdo['Speed'], past a map without it
+    f"kset p1 sSpeed {_DEMO}/{_DEMO} 341278569abc/000000000000 int 17",     # node.pdo['Speed']: first map only
+    f"kget r n8208 {_DEMO} 341278569abc",               # node.rpdo[0x2010]
+    f"kget m0 s2010 {_DEMO} 341278569abc",              # pdo['2010']: a hex str is an index
+    f"kget m0 n8192 {_DEMO} 341278569abc",              # pdo[0x2000]: first variable of that index
+    f"kget m0 n3 {_DEMO} 341278569abc",                 # by position
+    f"kget m0 n4 {_DEMO} 341278569abc",                 # a position beyond the map
+    f"kget t n0 -/{_DEMO} -/341278569abc",              # node.tpdo[0]: IndexError of the first map ends the lookup
+    f"kget p1 n6656 {_DEMO}/{_DEMO} 341278569abc/000000000000",             # node.pdo[0x1A00] is a map
+    f"kget m0 sspeed {_DEMO} 341278569abc",             # names are case-sensitive
+    f"kget m0 sSpee {_DEMO} 341278569abc",              # a prefix of a name is not the name
+    f"kget m0 sSpeed.Speed {_DEMO} 341278569abc",
+    "kget m0 sX 5:0:8192:0:-:X,5:8:8192:0:-:X 7f",     # an entry without bits is passed over
+    "kget m0 n8192 5:0:8192:0:-:X,5:8:8192:0:-:X 7f",
+    "kget m0 sADC 5:8:8192:0:-:ADC,5:8:2780:0:-:Y 1122",                   # a name that reads as hex is an index
+    "kset m0 sA.B 5:4:8192:0:-:A.B,5:4:8193:1:rA:B 00 int 15",             # two variables of one full name: first
 ]
 
 LEVEL_TEXT = ("Lean 4 theorems for every frame, every bit offset and length and every value: a read returns exactly "
               "the bit field (sign-extended for signed types), a write changes exactly those bits to the value's low "
               "bits and leaves every other bit and the frame length unchanged, hence read-after-write and neighbour "
-              "isolation; offsets of add_variable are disjoint prefix sums; tied to the code by a differential run "
-              "over all 1- and 2-object layouts and seeded layouts of up to 8 objects")
+              "isolation; offsets of add_variable are disjoint prefix sums; a key (position, index, full name; on a map "
+              "or through node.rpdo/tpdo/pdo) reaches the first variable whose index / full name is the key and is "
+              "refused when there is none, so reads and writes through a key are reads and writes of that field; "
+              "tied to the code by a differential run over all 1- and 2-object layouts, seeded layouts of up to 8 "
+              "objects and seeded dictionaries with colliding names")
 LEVEL_NOTE = ("trusted: Lean kernel + standard axioms; Python int/bytes conversions and bytearray slice assignment are "
               "modelled; typed access composes with the C04 codec model; correspondence strength bounded by the "
               "generator (distribution in the evidence)")
